@@ -22,6 +22,20 @@ var _ = reserr.ErrTimeout
 //@ define predReqsOK(c *Client) bool = c != nil && c.mqReqs != nil &&
 //@     (forall s *nats.Subscription :: has(c.mqReqs, s) ==> c.mqReqs[s] != nil)
 
+// parseMeta (pre-response): a valid timeout:"ms" tag restarts the request timeout - the timer
+// that is pending (the default one in the timer queue, or the one an earlier pre-response armed)
+// is cancelled first, and a new timer is armed exactly when that cancellation succeeded (the
+// request had not timed out yet); anything else leaves the timers alone.
+//@ func (*Client).parseMeta
+//@   requires c != nil && msg != nil && rc != nil
+//@   assumes c.tq != nil
+//@   ensures[C18] callcount("Remove") + callcount("Stop") <= old(callcount("Remove")) + old(callcount("Stop")) + 1
+//@   ensures[C18] callcount("AfterFunc") > old(callcount("AfterFunc")) ==> callcount("Remove") + callcount("Stop") == old(callcount("Remove")) + old(callcount("Stop")) + 1
+//@   assert[C18] c.tq.Remove#1: rc.t == nil && arg0 == msg.Sub
+//@   assert[C18] rc.t.Stop#1: rc.t != nil
+//@   assert[C18] time.AfterFunc#1: removed && callcount("Remove") + callcount("Stop") == old(callcount("Remove")) + old(callcount("Stop")) + 1
+//@   safety[C15]
+
 // onTimeout: a request that is no longer pending is left alone; a pending one is removed first
 // and then completed exactly once with system.timeout.
 //@ func (*Client).onTimeout
